@@ -1,0 +1,31 @@
+// SPDX-License-Identifier: MIT OR Apache-2.0
+
+//! Verification hook for the external verification harness (properties C11, C12).
+//!
+//! Compiled only with `--cfg p2panda_p2panda_verif`; add-only, with the cfg off the crate is
+//! unchanged.
+//!
+//! * re-exports the crate-private [`CausalOrderer`] (the module `orderer::orderer` is private to
+//!   `crate::orderer`, which is why this file lives inside that module),
+//! * implements [`Ordering<Hash>`] for `Operation<E>` for any extension type which declares its
+//!   dependencies through [`VerifDependencies`]: the orphan rule forbids an `Ordering<Hash>`
+//!   implementation for `Operation<_>` outside of this crate, and the harness needs real
+//!   operations (stored in the operation store) to drive the `Orderer` processor.
+use p2panda_core::{Extensions, Hash, Operation};
+
+pub use super::orderer::CausalOrderer;
+use super::traits::Ordering;
+
+/// Extension types of the verification harness name the operations they depend on.
+pub trait VerifDependencies {
+    fn verif_dependencies(&self) -> &[Hash];
+}
+
+impl<E> Ordering<Hash> for Operation<E>
+where
+    E: Extensions + VerifDependencies,
+{
+    fn dependencies(&self) -> &[Hash] {
+        self.header.extensions.verif_dependencies()
+    }
+}
